@@ -19,6 +19,37 @@ if TYPE_CHECKING:
 logger = logging.getLogger(__name__)
 
 
+def _update_capacity_faults(resource, factor: float, *, active: bool) -> None:
+    """Record (or forget) one capacity reduction and recompute the resource's capacity.
+
+    The capacity is the configured capacity times every factor that is currently
+    active, so overlapping windows compose and the last one to end restores the
+    configured capacity exactly. ``_available`` moves by the same amount as
+    ``_capacity`` so that held + available == capacity keeps holding; it is
+    negative while more is held than the reduced capacity (acquirers then wait).
+    """
+    state = getattr(resource, "_capacity_faults", None)  # (configured capacity, active factors)
+    if state is None:
+        if not active:
+            return
+        state = resource._capacity_faults = (resource._capacity, [])
+    configured, factors = state
+    if active:
+        factors.append(factor)
+    elif factor in factors:
+        factors.remove(factor)
+    new_capacity = configured
+    for f in factors:
+        new_capacity = new_capacity * f
+    if not factors:
+        del resource._capacity_faults
+    change = new_capacity - resource._capacity
+    resource._capacity = new_capacity
+    resource._available += change
+    if change > 0:
+        resource._wake_waiters()
+
+
 @dataclass(frozen=True)
 class ReduceCapacity:
     """Temporarily reduce a resource's capacity.
@@ -42,32 +73,23 @@ class ReduceCapacity:
         resource = ctx.resources[self.resource_name]
         resource_name = self.resource_name
         factor = self.factor
-        original_capacity = resource._capacity
 
         def activate(e: Event) -> None:
-            new_capacity = original_capacity * factor
-            resource._capacity - new_capacity
-            resource._capacity = new_capacity
-            # Clamp available to not exceed new capacity
-            if resource._available > new_capacity:
-                resource._available = new_capacity
+            _update_capacity_faults(resource, factor, active=True)
             logger.info(
                 "[FaultInjection] Reduced '%s' capacity to %.1f (factor=%.2f) at %s",
                 resource_name,
-                new_capacity,
+                resource._capacity,
                 factor,
                 e.time,
             )
 
         def deactivate(e: Event) -> None:
-            capacity_increase = original_capacity - resource._capacity
-            resource._capacity = original_capacity
-            # Restore available by the same amount capacity increased
-            resource._available += capacity_increase
+            _update_capacity_faults(resource, factor, active=False)
             logger.info(
                 "[FaultInjection] Restored '%s' capacity to %.1f at %s",
                 resource_name,
-                original_capacity,
+                resource._capacity,
                 e.time,
             )
 
